@@ -500,6 +500,22 @@ impl<'a, 'ast> Visit<'ast> for Ed<'a> {
         }
         visit::visit_expr_assign(self, e);
     }
+    fn visit_expr_method_call(&mut self, e: &'ast syn::ExprMethodCall) {
+        // E14: a std datatype constructor used as a function value (`.map_ok(Some)`) is
+        // eta-expanded (`.map_ok(|vx_e| Some(vx_e))`): Verus has no constructor function values
+        for a in &e.args {
+            if let syn::Expr::Path(p) = a {
+                if p.qself.is_none() && p.path.segments.len() == 1 {
+                    let id = p.path.segments[0].ident.to_string();
+                    if id == "Some" || id == "Ok" || id == "Err" {
+                        let r = p.span().byte_range();
+                        self.push(r.start, r.end, format!("|vx_e| {id}(vx_e)"), "E14-constructor-eta", false);
+                    }
+                }
+            }
+        }
+        visit::visit_expr_method_call(self, e);
+    }
     fn visit_expr_binary(&mut self, e: &'ast syn::ExprBinary) {
         if self.dir.boolops {
             match &e.op {
